@@ -1,8 +1,7 @@
 """C03 - reference-free alignment recovers exactly the true SNP columns.
 
-The recovery statement quantifies over genomes (sequence content, uniqueness of k-mers) and is NOT
-decided by static analysis.  Claimed only for three structural necessary conditions of its mechanisms:
-  C03.column  a sample's base and name land in that sample's column (append: names[i], vec[i] with i = other.idx())
+Decided by interpretation on bounded families (C03.cli / C03.e2e: ska align end to end; C03.func: which column and name
+each sample owns through the parallel build and through merge) plus table rules for its mechanisms:
   C03.gap     MergeSkaArray::new turns 0 into '-' and fixes every other stored byte; the count predicate treats
               both encodings of "missing" (0 from build, '-' from to_dict) as missing
   C03.fasta   write_fasta zips names with the rows of the transpose of `variants`, in field order
@@ -17,46 +16,6 @@ EXPLANATION = ('Structural necessary conditions only (column provenance, missing
 ASSUMPTIONS = ['exact matching of split k-mers is C01/C16; filters are C06']
 MSA = 'merge_ska_array::MergeSkaArray'
 MSD = 'merge_ska_dict::MergeSkaDict'
-
-
-def check_column(facts, chk, rule='C03.column'):
-    def go():
-        ap = facts.fn(MSD + '::append')
-        eb = ExprBuilder(ap)
-        names_idx = facts.field_index(MSD, 'names')
-        res = []
-        # names[other.idx()] = other.name().clone()
-        nm = [(bb, t) for bb, t in ap.calls() if (t.callee.name or '').endswith('index_mut') and
-              any(x[0] == 'field' and x[2] == names_idx for x in subexprs(eb.operand(t.args[0])))]
-        ok_n = len(nm) == 1 and eb.operand(nm[0][1].args[1])[0] == 'call' and eb.operand(nm[0][1].args[1])[1].endswith('SkaDict::idx')
-        res.append(('name-index', ok_n, 'names[%s]' % (show(eb.operand(nm[0][1].args[1])) if nm else '?')))
-        # base vectors: every index_mut on a base vector uses other.idx()
-        sites = []
-        for b in [ap] + facts.closures_of(MSD + '::append'):
-            ebb = ExprBuilder(b)
-            for bb, t in b.calls():
-                if (t.callee.name or '').endswith('index_mut') and 'Vec<u8>' in (t.callee.full or ''):
-                    sites.append((b.name, show(ebb.operand(t.args[1])), t.span))
-        ok_b = len(sites) == 3 and all(s[1] in ('idx(&*other)', 'idx(&*upvar:*other)', 'idx(&*upvar:other)', 'idx(other)') for s in sites)
-        res.append(('base-index', ok_b, '%d base-vector writes, all at other.idx(): %s' % (len(sites), [s[1] for s in sites])))
-        # vectors are created with n_samples zeros
-        fe = []
-        ns_idx = facts.field_index(MSD, 'n_samples')
-        for b in [ap] + facts.closures_of(MSD + '::append'):
-            ebb = ExprBuilder(b)
-            for bb, t in b.calls():
-                if (t.callee.name or '') == 'std::vec::from_elem':
-                    fe.append((ebb.operand(t.args[0]), ebb.operand(t.args[1])))
-        ok_z = len(fe) == 2 and all(a == ('const', 0, 'u8') and ('n_samples' in show(n) or any(x[0] == 'field' and x[2] == ns_idx for x in subexprs(n))) for a, n in fe)
-        res.append(('zero-rows', ok_z, 'new rows are vec![0; n_samples] (%d sites)' % len(fe)))
-        return res
-    r = chk.guard(rule, rule + ':append', go)
-    if r is not None:
-        for nm, ok, why in r:
-            if ok:
-                chk.ok(rule, '%s:append:%s' % (rule, nm), MSD + '::append', why)
-            else:
-                chk.violation(rule, '%s:append:%s' % (rule, nm), where=MSD + '::append', detail='violated: ' + why)
 
 
 def check_gap(facts, chk, rule='C03.gap'):
@@ -116,6 +75,9 @@ def check_fasta(facts, chk, rule='C03.fasta'):
 
 
 def run(facts, chk, tier, only=None):
+    from . import cli_e2e
+    # the subcommand through ska::main() itself (argument parser replaced by a constructed Args value): hand-over of CLI values, width dispatch
+    chk.guard('C03.cli', 'C03.cli:run0', lambda: cli_e2e.check_align(facts, chk, 'C03.cli', tier))
     from . import buildops
     # the parallel build, functionally: sample i owns name i and column i for every recursion depth
     chk.guard('C03.func', 'C03.func:parallel_append', lambda: buildops.check_parallel_append(facts, chk, 'C03.func', tier))
@@ -124,7 +86,6 @@ def run(facts, chk, tier, only=None):
     chk.guard('C03.func', 'C03.func:pipeline', lambda: tableops.check_merge_pipeline(facts, chk, 'C03.func', tier))
     from . import e2e
     chk.guard('C03.e2e', 'C03.e2e:run', lambda: e2e.check_align_e2e(facts, chk, 'C03.e2e', tier))
-    chk.guard('C03.column', 'C03.column:run', lambda: check_column(facts, chk))
     chk.guard('C03.gap', 'C03.gap:run', lambda: check_gap(facts, chk))
     chk.guard('C03.fasta', 'C03.fasta:run', lambda: check_fasta(facts, chk))
     # every sample is built with the shared SplitKmer iterator: windows at record ends / short contigs (C01.guard)
